@@ -55,7 +55,7 @@ THOROUGH_GEN = [
     (("INT", "TSTP"), False, 100),
     (("QUIT", "TSTP"), False, 100),
     (("QUIT", "TERM"), False, 100),
-    (("CHLD", "TERM"), True, 100),
+    (("CHLD", "TERM"), False, 100),
     (("INT", "KILL"), True, 100),
     (("INT", "QUIT", "TERM"), False, 4),
     (("USR1", "CHLD", "INT"), False, 4),
